@@ -51,6 +51,7 @@ pub trait ProxyClaimModule:
             &attributes.lp_farm_token_amount,
         );
         let new_staking_farm_value = self.get_lp_tokens_safe_price(lp_tokens_in_position);
+        require!(new_staking_farm_value > 0, "Position value is zero");
 
         let staking_farm_token_id = self.staking_farm_token_id().get();
         let lp_farm_token_id = self.lp_farm_token_id().get();
